@@ -765,8 +765,11 @@ class REPEX_state:
             fracs = [str(i) for i in self.traj_data[key]["frac"]]
             self.config["current"]["frac"][str(key)] = fracs
 
-        with open("./restart.toml", "wb") as f:
+        # write to a temporary file and rename: the restart file on disk is
+        # always a complete one, also if we die while writing.
+        with open("./restart.toml.tmp", "wb") as f:
             tomli_w.dump(self.config, f)
+        os.replace("./restart.toml.tmp", "./restart.toml")
 
     def write_pattern(self, md_items):
         """Pattern writer."""
